@@ -17534,7 +17534,9 @@ namespace awkward {
       const int64_t* parents,
       int64_t maxcount,
       int64_t nextlen,
-      const int64_t* nextcarry) {
+      const int64_t* nextcarry,
+      const int64_t* shifts,
+      int64_t lenshifts) {
       if (ptr_lib == kernel::lib::cpu) {
         return awkward_ListOffsetArray_reduce_nonlocal_nextshifts_64(
           nummissing,
@@ -17546,7 +17548,9 @@ namespace awkward {
           parents,
           maxcount,
           nextlen,
-          nextcarry);
+          nextcarry,
+          shifts,
+          lenshifts);
       }
       else if (ptr_lib == kernel::lib::cuda) {
         throw std::runtime_error(
